@@ -473,6 +473,10 @@ def cross_module_programs():
         add(f'fields:{a}-{b}', f'c = {a}()\nd = {b}()\nv = c.r\nw = d.r\ns = c.area()\nt = d.area()')
         add(f'lists:{a}-{b}', f'cs = [{a}()]\nds = [{b}()]\nc0 = cs[0]\nd0 = ds[0]\nv = c0.r\nw = d0.r')
         add(f'dict:{a}-{b}', "m = {'a': " + a + "()}\nn = {'b': " + b + "()}\nv = m['a'].r\nw = n['b'].r")
+    # same class and arity, other type arguments
+    for tag, x, y in [('list', '[1]', "['a']"), ('dict', "{'k': 1}", "{'k': 'v'}"), ('tuple', "(1, 's')", "('s', 1)"), ('nested', '[[1]]', "[['a']]"), ('dict-key', "{1: 'a'}", "{'a': 'a'}")]:
+        add(f'same-class-ternary:{tag}', f'x = {x} if p else {y}\ny = x')
+        add(f'same-class-ternary-rev:{tag}', f'x = {y} if p else {x}\ny = x')
     for a, b in itertools.permutations(['circle', 'label', 'plate'], 2):
         add(f'factory:{a}-{b}', f'c = make_{a}()\nd = make_{b}()\nv = c.area()\nw = d.area()\nz = make_{a}() if p else make_{b}()')
     per = 30
